@@ -161,7 +161,8 @@ def run_l2(chk, P):
     nun = 0
     for name, t, res in T.manager_functions():
         # managers whose job_in_lane lives inside ldata[lane] are addressed through computed pointers the typed view cannot follow
-        top = any(nm == 'job_in_lane' for nm, o, sz, f in (T.flat(t) or []))
+        top = any(nm == 'job_in_lane' for nm, o, sz, f in (T.flat(t) or [])) or \
+            any('sub' in f and f.get('count') and any(x['name'] == 'job_in_lane' for x in f['sub']) for nm, o, sz, f in (T.flat(t) or []))
         is_submit = name.startswith('submit_') or any(k.startswith('SUBMIT') for k in role.get(name, ()))
         is_flush = name.startswith('flush_') or any(k.startswith('FLUSH') for k in role.get(name, ()))
         if not (is_submit or is_flush):
@@ -173,6 +174,11 @@ def run_l2(chk, P):
                 continue
             if cl['what'] == 'arg' and cl['reg'] == 'rdi' and cl.get('field'):
                 fld = cl['field']
+                if cl.get('off') is not None:
+                    # managers whose job_in_lane lives inside ldata[lane]: name the member inside one lane element
+                    fa2 = T.field_at(cl['type'], cl['off'])
+                    if fa2 and fa2[0].endswith('[].job_in_lane') and fa2[1] == 0:
+                        fld = 'job_in_lane'
                 if fld == 'job_in_lane':
                     if asmtyped.is_zero_store(s):
                         facts['jil_zero'] += 1
